@@ -726,15 +726,14 @@ def configs (quick):
       if name == "idle": cs.append(dict(base, bound=1, nondefault=True, via="schedule"))
       # a third default-successor policy (the thread started last goes first: the foreign threads before the scheduler,
       # the scheduler before the hub), bound 2 like the rotating one
-      if name in ("idle", "sync") or not quick:
-        cs.append(dict(base, bound=2, rotate="reverse"))
-      else:
-        cs.append(dict(base, bound=1, rotate="reverse"))
+      cs.append(dict(base, bound=1 if quick else 2, rotate="reverse"))
       if name == "calllater":
         # every hand-over a first one (the lazily created call-later task): 2 threads x 1 call, so that bound 2 is
         # affordable under every policy (thorough: 3 threads)
         for pol in (False, True, "reverse"):
-          if pol is False and quick: continue       # (contained in the 2 x 2 configuration above, to the same bound)
+          # (quick: the default policy is contained in the 2 x 2 configuration above, to the same bound; the rotating one is
+          #  left to the thorough tier)
+          if pol != "reverse" and quick: continue
           cs.append(dict(base, bound=2, calls=1, rotate=pol))
           if not quick: cs.append(dict(base, bound=2, calls=1, threads=3, rotate=pol))
         # other users of the hub next to the call-later task, under each policy
